@@ -1,6 +1,6 @@
 """Orchestration: run the registered sub-space runs of a property check, merge, apply known findings,
 write evidence, emit VIOLATION / KNOWN-FINDING lines."""
-import hashlib, json, os, subprocess, sys, time
+import hashlib, json, os, re, subprocess, sys, time
 
 from . import build
 from .build import VERIF
@@ -39,6 +39,29 @@ def kf_match(entry, prop, viol):
         if sub not in json.dumps(viol.get(k, ""), ensure_ascii=True):
             return False
     return True
+
+
+# Drivers count, instead of reporting, the cases that fall under the narrow predicate of a listed library defect ("known_defect:<id>" and the like),
+# so that the rest of a space is explored.  Such a guard is only legitimate while the ledger lists the defect as known: once it is recorded as fixed
+# (or is not listed at all) a hit means that the defect has returned - or that something else now matches its predicate - and must be reported.
+GUARD_RE = re.compile(r"^(?:py_)?(?:known_defect(?:_hits|_skipped)?|skipped_known_defect):(.+)$")
+GUARD_ALIASES = {("C07", "duplicate-notation-is-warning"): "duplicate-notation-declaration-only-warns"}
+
+
+def _norm_defect_id(s):
+    s = s.lower()
+    s = re.sub(r"^c\d\d-", "", s)
+    s = re.sub(r"^kd\d+-", "", s)
+    return s
+
+
+def guard_is_listed_known(prop, did, kfs):
+    d = _norm_defect_id(did)
+    d = GUARD_ALIASES.get((prop, d), d)
+    for e in kfs:
+        if e.get("status") == "known" and e.get("property") == prop and _norm_defect_id(e.get("id", "")) == d:
+            return True
+    return False
 
 
 def run_driver(run, tier, seed, tmpdir):
@@ -141,6 +164,12 @@ def check(prop, tier):
                 unexplained = extra
             if unexplained > 0:
                 unmatched.append((run, {"case": None, "kind": "unlisted-violations", "count": unexplained, "_space": run["name"]}))
+        for key, n in sorted(cnt.items()):
+            gm = GUARD_RE.match(key)
+            if gm and n and not guard_is_listed_known(prop, gm.group(1), kfs):
+                unmatched.append((run, {"case": None, "kind": "guard-of-repaired-defect-hit", "defect": gm.group(1), "count": n, "_space": run["name"],
+                                        "explanation": "cases were skipped under the guard of a defect that known_findings.json does not list as known (repaired or never listed): "
+                                                       "the defect has returned or something else matches its predicate; run the driver with its strict / witness option to see the cases"}))
         if cnt.get("deadline_skipped", 0):
             deadline_hit = True
     wall = time.time() - t0
